@@ -282,7 +282,7 @@ func (p *Core) execMut(op sim.Op) {
 		}
 	}
 	h := op.M
-	if h < 3 || h > of.Height {
+	if h < 3 || h > of.Height || (!ps.Local && h-1 < of.MinVersion) {
 		w.Noop()
 		return
 	}
